@@ -799,7 +799,8 @@ def _admissible_assertion(c, facts, n, parents, fam):
                 if fld["name"] in OPTIONAL_STR:
                     for f_, pol in facts:
                         f_ = F.strip(f_)
-                        if pol and f_.get("k") == "Binary" and f_["op"] == "Ne" and FL.same_place(f_["l"], fld) and "MAX" in F.pp(f_["r"]):
+                        if pol and f_.get("k") == "Binary" and f_["op"] == "Ne" and FL.same_place(f_["l"], fld) \
+                                and ("MAX" in F.pp(f_["r"]) or C.int_lit(f_["r"]) == 0xFFFFFFFF):
                             return "optional string reference, checked only when not the sentinel"
         return None
     # assert_eq!(X.<sec>_offset, total)
